@@ -17,8 +17,9 @@ from . import gen
 from .expr import Unrecognised
 from .frag_balance import frag_balance
 from .frag_computed import frag_computed
+from .frag_entry_set import frag_entry_set
 
-FRAGMENTS = [("balance", frag_balance), ("computed", frag_computed)]
+FRAGMENTS = [("balance", frag_balance), ("computed", frag_computed), ("entry_set", frag_entry_set)]
 
 HEADER = """(** GENERATED from /repo's working tree by harness/translate/tie.py -- do not edit. *)
 From RP2V Require Import Base.Prelude Base.Time Base.Dec Model.Types.
